@@ -65,9 +65,9 @@ Proof.
   assert (Se : state (emit s) = state s) by apply emit_spec.
   destruct (negb (is_empty (mode_info (emit s)))).
   - destruct (wfh_facts i (name_of_diff_line (diff_line (emit s))) (emit s) Be Qe) as (A & Q & S & _).
-    split; [eapply App_trans; [apply App_emit | exact A]|].
-    split; [intros _; exact Q|]. split; [congruence|].
-    destruct Q as [Qm Qp]. destruct Hq as [Hm Hp]. split; congruence.
+    split; [eapply App_trans; [apply App_emit|]; eapply App_trans; [exact A | apply App_eq; reflexivity]|].
+    split; [intros _; exact Q|]. split; [cbn; congruence|].
+    destruct Q as [Qm Qp]. destruct Hq as [Hm Hp]. split; cbn; congruence.
   - destruct (negb (color_only c) && negb (opt_text_pair_eqb (handled (emit s)) (cur (emit s)))).
     + destruct (wfh_facts i (describe (emit s)) (emit s) Be Qe) as (A & Q & S & _).
       split; [eapply App_trans; [apply App_emit|]; eapply App_trans; [exact A | apply App_eq; reflexivity]|].
